@@ -50,6 +50,33 @@ CLAIMS = {
             'refer to their owner, pinned refuted otherwise (known finding D10). CPython weakref/lru_cache/refcount semantics are modelled, not verified.',
             'Trusted: Coq kernel/vm_compute, harness, the CPython semantics stated in Model/C20.v (validated by the tie incl. measured address reuse).',
             'DESIGN.md §5 C20'),
+    'C01': ('Coq theorems over integer numerators with a universally quantified denominator (wrap, round-half-even minimum image, telescoping, shift invariance), '
+            'Flocq real-number model of np.mod in binary64 with a PrimFloat twin proved to refine it + checked correspondence (exact regime, bit-exact float stream)',
+            'Proof: positions in [0,1) and congruent to the input, displacements are (unique away from ties) minimum images, running sum reproduces every frame mod 1, '
+            'whole-cell shifts change nothing (no-tie hypothesis stated), and in binary64 the repaired wrap stays in [0,1) within 2^-53 of a lattice translate; the old code is refuted (D1).',
+            'Trusted: Coq kernel/vm_compute, stdlib real axioms + FloatAxioms/Uint63 primitive specs (float part only), harness, numpy IEEE-754 arithmetic (bit-exact tie).',
+            'DESIGN.md §5 C01'),
+    'C08': ('Coq theorems on floor/count arithmetic (partition lemma reused from C05) + kernel-evaluated PrimFloat sweep for the voxel round trip (bound 4096 in the statement) '
+            '+ checked correspondence incl. grids where np.linspace edges are off by an ulp',
+            'Proof: voxel sum = samples, entry = count of samples with floor(frac*n), digitize = floor, edge length in [res, 2 res), exact and binary64 round trip, roll law.',
+            'Trusted: Coq kernel/vm_compute incl. primitive floats for the sweep, harness, numpy exactness on the dyadic grid.', 'DESIGN.md §5 C08'),
+    'C09': ('Coq real-analysis theorems (exp/ln, sums) + per-voxel interval-arithmetic certificates generated and proved on every run + discrete tie for max-float / node set',
+            'Proof: exp(-F/kT) recovers p and sums to one, monotone, non-negative, unvisited = BIG excluded by any threshold <= 1e20; each sampled implementation value is '
+            'certified equal to -k_B T ln(c/N) within 1e-12 by the Interval tactic, and k_B is certified to be the SI-exact quotient.',
+            'Trusted: Coq kernel, stdlib real axioms, Interval (uses primitive integers), harness; libm log only through certificates.', 'DESIGN.md §5 C09'),
+    'C10': ('Coq certificate theorems (dual potentials => lower bound on every path; closed cuts => unreachable; min-max cuts) checked per case on a grid-graph model '
+            'whose move lists, wrapped_sites expression and method dispatch are regenerated from the source + checked correspondence of graph, paths and energies',
+            'Proof: a passing check proves the returned path valid and cost-minimal over ALL admissible paths of that grid (all five methods, both neighbourhoods, percolation over all peaks); '
+            'wrapped/frac coordinates inside the grid is a theorem about the generated definition. Known findings: minmax-energy (D8), missing corner moves (D17).',
+            'Trusted: Coq kernel/vm_compute, translator units voxel/dispatch/moves, harness; networkx and the harness Dijkstra are untrusted (certificates).', 'DESIGN.md §5 C10'),
+    'C13': ('Coq theorems (integer identities over scaled means, set logic for species selection) + checked correspondence in the exact regime',
+            'Proof: reference mean zero in every frame, first frame unchanged, idempotent, rigid-translation invariant, floating = complement of fixed; tie compares drift and corrected positions exactly.',
+            'Trusted: Coq kernel/vm_compute, harness, numpy exact on dyadic grid with power-of-two reference counts. Closed under the global context.', 'DESIGN.md §5 C13'),
+    'C15': ('Coq refinement proof: store machine of trajectory objects vs abstraction "wrapped positions per frame" (invariant wf, induction over operation sequences), '
+            'Python slice semantics model + checked correspondence on random op sequences and exhaustive slice.indices comparison',
+            'Proof: representation switches preserve the abstraction, read-only sequences preserve every object, queries equal their spec on the abstraction (no-tie for displacements), '
+            'slice/filter/extend produce exactly the corresponding frames/atoms, slice indices always valid.',
+            'Trusted: Coq kernel/vm_compute, harness, numpy exact on dyadic grid. Closed under the global context.', 'DESIGN.md §5 C15'),
 }
 PENDING_REASON = 'not yet claimed in this revision: model/tie under construction (see DESIGN.md §11 build order)'
 
